@@ -28,6 +28,7 @@ CONFIG = dict(
                 "happened before the parent closed that slot; the rest of the entry is unaffected; single open; closing never panics; the "
                 "unrepaired wait_for_data is refuted (fixed by a fix: commit, witness in corpus). Correspondence: exhaustive sequential "
                 "histories and scheduled multi-thread runs over the send/release window on the real Slot/LazySlot/SlotGuard inside a "
-                "#[metrics] entry, compared with the mechanism model and the history specification / trace predicate; free-running threads "
-                "judged by event order.",
+                "#[metrics] entry, compared with the mechanism model and the history specification / trace predicate; the first exhaustive "
+                "configuration and a quarter of the random histories are run a second time with every drop placed on a thread that is "
+                "unwinding from a panic (same model answer: a drop is a drop); free-running threads judged by event order.",
 )
